@@ -65,6 +65,15 @@ fn has_dup_keys(v: &sonic_rs::Value) -> bool {
     else if let Some(a) = v.as_array() { a.iter().any(has_dup_keys) } else { false }
 }
 impl Arb for sonic_rs::Number { fn arb(rng: &mut Rng) -> Self { loop { let i = rng.next(); let (lit, _) = crate::nm::gen_literal(rng, i); if let Ok(n) = sonic_rs::from_slice::<sonic_rs::Number>(&lit) { return n; } } } }
+/// a struct holding an owned lazy value (compared by its serialisation: it has no equality of its own)
+#[derive(Serialize, Deserialize, Debug, Clone)]
+pub struct SOlv { pub a: u8, pub l: sonic_rs::OwnedLazyValue, pub v: Vec<sonic_rs::OwnedLazyValue> }
+// equality of what the lazy values denote (the DOM route cannot keep the spelling of a number or an escape)
+impl PartialEq for SOlv { fn eq(&self, o: &Self) -> bool {
+    let den = |x: &dyn Fn() -> Option<String>| x().and_then(|t| sonic_rs::from_str::<sonic_rs::Value>(&t).ok());
+    self.a == o.a && den(&|| sonic_rs::to_string(&self.l).ok()) == den(&|| sonic_rs::to_string(&o.l).ok()) && den(&|| sonic_rs::to_string(&self.v).ok()) == den(&|| sonic_rs::to_string(&o.v).ok()) } }
+impl Arb for sonic_rs::OwnedLazyValue { fn arb(rng: &mut Rng) -> Self { loop { let d = { let mut g = crate::jt::Gen { rng }; g.doc() }; if sonic_rs::from_slice::<sonic_rs::Value>(&d).map(|v| !has_dup_keys(&v)).unwrap_or(false) { if let Ok(v) = sonic_rs::from_slice::<sonic_rs::OwnedLazyValue>(&d) { return v; } } } } }
+impl Arb for SOlv { fn arb(rng: &mut Rng) -> Self { SOlv { a: Arb::arb(rng), l: Arb::arb(rng), v: Arb::arb(rng) } } }
 // serde_json's own DOM as a member of the family: it goes through deserialize_any on both routes
 #[derive(Serialize, Deserialize, PartialEq, Debug, Clone)]
 pub struct SjValue(pub serde_json::Value);
@@ -239,6 +248,7 @@ pub fn registry() -> Vec<TyEntry> {
         TyEntry { name: "dom_struct_with_value", de: de_none, conv: Some(conv::<SWithValue>), gen: None },
         TyEntry { name: "dom_vec_value", de: de_none, conv: Some(conv::<Vec<sonic_rs::Value>>), gen: None },
         TyEntry { name: "dom_serde_json_value", de: de_none, conv: Some(conv::<SjValue>), gen: None },
+        TyEntry { name: "dom_struct_ownedlazy", de: de_none, conv: Some(conv::<SOlv>), gen: None },
         TyEntry { name: "dom_rawnumber", de: de_none, conv: Some(conv::<sonic_rs::RawNumber>), gen: None },
         TyEntry { name: "dom_struct_raw", de: de_none, conv: Some(conv::<SRaw>), gen: None },
         TyEntry { name: "dom_number", de: de_none, conv: Some(conv::<Vec<sonic_rs::Number>>), gen: None },
